@@ -74,8 +74,11 @@ def shard(col, module, chrom_len, base_n, seqs, max_execs):
                         (-1, "?", [(f"raises:{type(exc).__name__}@{where}", repr(exc)[:200])]))
                 return list(state.get("probs", []))
 
-            def on_exec(ch, probs, script=script):
+            def on_exec(ch, probs, script=script, state=state):
                 col.count("traces_validated_against_impl")
+                col.sample({"module": module, "chromosome_length": chrom_len,
+                            "script": [o[0] for o in script], "choices": ch.choices,
+                            "final_test_case": state.get("canon", ("",))[0]}, every=211)
                 for (i, opname, plist) in probs:
                     if opname == "?":
                         # attribute a crash to the step that was running
